@@ -19,7 +19,8 @@ What the process shares: the counter of the BASE class `Point` (`utils.py:112-11
 * `shared`      — one process-wide counter that is never reset (the textbook design).
 The uuids are internal keys (hash of a point, row index of `coords_df`), never labels.
 
-A step `Op.frame j t dsts` is ATOMIC (one `next()` of the generator): threads are not modelled.
+The per-job step is `Linker.jobLabels` / `Linker.firstState` (Model/LinkerAlgo.lean, the functions
+behind the driver op `LALGO`).  A step `Op.frame j t dsts` is ATOMIC (one `next()` of the generator): threads are not modelled.
 -/
 namespace TrackpyV.JobsLinker
 open TrackpyV.Linker
@@ -39,16 +40,6 @@ def Op.job : Op → Nat
 /-- the frame an operation carries -/
 def Op.lvl : Op → Int × List Pos
   | .frame _ t dsts => (t, dsts)
-
-/-- the labels one `next_level` gives: `SubnetOversizeException` (`none`) when a sub-net exceeds
-`MAX_SUB_NET_SIZE` (subnet.py `subnet_linker_*`), else the deterministic step.  (Same convention
-as the driver op `LALGO`.) -/
-def jobLabels (cfg : Cfg) (st : State) (t : Int) (dsts : List Pos) : Option (List Nat) :=
-  if oversizeB cfg (stepGroups cfg st t dsts) then none else algoLabels cfg st t dsts
-
-/-- state after the first level (`init_level`: every feature starts a trajectory, ids `0 … n-1`) -/
-def firstState (t : Int) (dsts : List Pos) : State :=
-  nextState initCfg { srcs := [], used := [] } t dsts (List.range dsts.length)
 
 /-- the component of one job -/
 structure Job where
@@ -113,27 +104,6 @@ def stepSys (m : UidMode) (cfgs : Nat → Cfg) (s : Sys) : Op → Sys
 /-- run a schedule from the empty process (base counter at `u0`) -/
 def runSched (m : UidMode) (cfgs : Nat → Cfg) (u0 : Nat) (ops : List Op) : Sys :=
   ops.foldl (stepSys m cfgs) (Sys.init0 u0)
-
-/-! ### one job alone: the deterministic movie function -/
-
-/-- the labels of the levels after the first, until the movie ends or a step raises;
-second component: did a step raise -/
-def algoFrom (cfg : Cfg) : State → List (Int × List Pos) → List (List Nat) × Bool
-  | _, [] => ([], false)
-  | st, (t, dsts) :: rest =>
-    match jobLabels cfg st t dsts with
-    | none => ([], true)
-    | some labels =>
-      (labels :: (algoFrom cfg (nextState cfg st t dsts labels) rest).1,
-       (algoFrom cfg (nextState cfg st t dsts labels) rest).2)
-
-/-- the deterministic linker run over a whole movie (first level labelled `0 … n-1`): the levels
-it yields, and whether it then raised (the function the driver op `LALGO` computes) -/
-def algoMovie (cfg : Cfg) : List (Int × List Pos) → List (List Nat) × Bool
-  | [] => ([], false)
-  | (t, dsts) :: rest =>
-    (List.range dsts.length :: (algoFrom cfg (firstState t dsts) rest).1,
-     (algoFrom cfg (firstState t dsts) rest).2)
 
 /-- the frames job `j` receives along a schedule, in order -/
 def framesOf (ops : List Op) (j : Nat) : List (Int × List Pos) :=
